@@ -44,8 +44,8 @@ def mutant_apply(file, old, new):
         path = os.path.join(d, "src", "schemathesis", file)
         s = open(path).read()
         n = s.count(old)
-        if n == 0:
-            return "anchor text not found"
+        if n != 1:
+            return f"anchor text occurs {n} times (must be unique)"
         s = s.replace(old, new, 1)
         open(path, "w").write(s)
         return None
